@@ -284,6 +284,8 @@ def pureOp (st : St) (ws : List String) : Option (St × List String) :=
       let hs2 ← addNamed hs1 (argOf rest "add" "-")
       pure (st, [s!"valid={b2s (headersValid hs2)} msg={hexOf (Enc.txResponseMessage (v.getD 0 0) (v.getD 1 0) stt reason hs2 (natOf (argOf rest "cl" "0")))}"])
   | ["chunkhdr", n, e] => (unhex e).map fun e => (st, [hexOf (Enc.chunkHeader (natOf n) e)])
+  | ["chunkhdr-set", n, e] => (unhex e).map fun e => (st, [hexOf (Enc.chunkHeader (natOf n) e)])
+  | ["chunkhdr-set", n, e, _, _] => (unhex e).map fun e => (st, [hexOf (Enc.chunkHeader (natOf n) e)])
   | ["lastchunk", e, t] => do
       let e ← unhex e
       let t ← unhex t
